@@ -227,7 +227,7 @@ void CDNS::CdnsDecoder::skip_item()
             }
             if (item_length == 31) {
                 while(true) {
-                    if (peek_type() == CborType::SIMPLE && (m_p[0] & 0x1F) == 31) {
+                    if (peek_type() == CborType::BREAK) {
                         m_p++;
                         break;
                     }
@@ -292,7 +292,7 @@ std::string CDNS::CdnsDecoder::read_string(CborType cbor_type, uint64_t length, 
         }
     }
     else {
-        while (peek_type() != CborType::SIMPLE) {
+        while (peek_type() != CborType::BREAK) {
             CborType chunk_type;
             uint8_t chunk_length_value;
             read_cbor_type(chunk_type, chunk_length_value);
